@@ -173,6 +173,15 @@ def find (E : Env) (S : St) (table : List Ident) (raise ensure : Bool) : St × F
       ({ S with cache := ((table, ensure), convCols E ensure cols) :: S.cache }, .found (convCols E ensure cols))
     | r => (S, r)
 
+/-- the OTHER cache policy ("store misses"): a computed `None` is remembered and served to later calls whatever
+    their `raise_on_missing` (the source stores `None` too, but `if schema is None:` treats it as a miss) -/
+def findStoreMisses (E : Env) (S : St) (misses : List CKey) (table : List Ident) (raise ensure : Bool) :
+    (St × List CKey) × FindR :=
+  if misses.contains (table, ensure) then ((S, misses), .notFound) else
+  match find E S table raise ensure with
+  | (S', .notFound) => ((S', (table, ensure) :: misses), .notFound)
+  | (S', r) => ((S', misses), r)
+
 def evict (ev : Evict) (cache : List (CKey × Cols)) (t : List Ident) : List (CKey × Cols) :=
   match ev with
   | .all => []
